@@ -282,7 +282,7 @@ def history_of(origin, state):
 def random_history(ctx, hist_no):
     rng = ctx.rng
     n = rng.randint(10, 30)
-    prefixes, uris = ("a", "b", "c", "d", "e\u0301", "\u212b", "ab", "abc", "xs", "xsi"), ("u1", "u2", "u3")   # (prefixes that contain each other too)
+    prefixes, uris = ("a", "b", "c", "d", "e\u0301", "\u212b", "ab", "abc", "xs", "xsi", "xml", "xmlns", "eml", ""), ("u1", "u2", "u3")   # (prefixes that contain each other too)
     # the forest starts with two documents imported from the same text (equal declarations, maps shared inside each document as
     # the importer does) plus separate nodes: "unrelated trees are unaffected" is checked across all of them
     doc = '<r xmlns:a="u1" xmlns:b="u2"><x><y/><w/></x><z xmlns:c="u3"/></r>'
